@@ -28,6 +28,9 @@ CONSTANTS B,            \* units per comparison block
           MaxBlocks,    \* the source spans at most MaxBlocks blocks
           Protocols,    \* subset of {2, 3, 4}
           AllPatterns,  \* BOOLEAN: every same/different pattern of old instead of the named relations
+          StepCheck,    \* BOOLEAN: TRUE = pipelineRecvHashAck checks that every ack is for the next step that
+                        \* was sent (the code since /repo c89a7df); FALSE = the code before: the matched
+                        \* prefix was taken from whatever acks arrived (see ResumeFault.tla)
           AsCoded       \* BOOLEAN: FALSE = pipelineRecvHashAck answers matchStep 0 at once when the
                         \* compared size is 0 (required; the code since /repo cb319ea);
                         \* TRUE = the code before that fix (it waited for an ack that never comes)
@@ -219,7 +222,9 @@ AckRecv ==
     /\ apc = "recv" /\ r2s # <<>> /\ Head(r2s).t = "ACK"
     /\ r2s' = Tail(r2s)
     /\ LET a == Head(r2s) IN
-       IF a.b = 0                                      \* !hashAck.Match
+       IF StepCheck /\ a.a # Min(sMatch + B, hsize)      \* an ack for another step than the next one sent
+       THEN chosen' = chosen /\ apc' = "fail" /\ sMatch' = sMatch
+       ELSE IF a.b = 0                                 \* !hashAck.Match
        THEN chosen' = sMatch /\ apc' = "done" /\ sMatch' = sMatch
        ELSE /\ sMatch' = a.a
             /\ IF a.a = hsize THEN chosen' = a.a /\ apc' = "done"
